@@ -1,1 +1,33 @@
-//! witnesses for c17 (filled in below)
+//! C17: comments are a `UniqueSortedVec<Arc<str>>` end to end.
+
+/// A plain vector cannot be stored as comments of a schedule period.
+/// ```compile_fail,E0308
+/// use std::sync::Arc;
+/// use opening_hours::schedule::TimeRange;
+/// use opening_hours_syntax::{ExtendedTime, RuleKind};
+/// let v: Vec<Arc<str>> = vec![Arc::from("b"), Arc::from("a")];
+/// let _t = TimeRange::new(ExtendedTime::MIDNIGHT_00..ExtendedTime::MIDNIGHT_24, RuleKind::Open, v);
+/// ```
+/// Twin:
+/// ```no_run
+/// use std::sync::Arc;
+/// use opening_hours::schedule::TimeRange;
+/// use opening_hours_syntax::{ExtendedTime, RuleKind};
+/// let v: Vec<Arc<str>> = vec![Arc::from("b"), Arc::from("a")];
+/// let _t = TimeRange::new(ExtendedTime::MIDNIGHT_00..ExtendedTime::MIDNIGHT_24, RuleKind::Open, v.into());
+/// ```
+pub struct CommentsAreSortedVec;
+
+/// `DateTimeRange` is `non_exhaustive`: it cannot be built with arbitrary comments outside the crate.
+/// ```compile_fail,E0639
+/// use opening_hours::DateTimeRange;
+/// use opening_hours_syntax::RuleKind;
+/// let _r = DateTimeRange { range: 0..1, kind: RuleKind::Open, comments: Default::default() };
+/// ```
+/// Twin:
+/// ```no_run
+/// use opening_hours::DateTimeRange;
+/// use opening_hours_syntax::RuleKind;
+/// fn kind(r: &DateTimeRange) -> RuleKind { r.kind }
+/// ```
+pub struct IntervalsCannotBeForged;
